@@ -20,9 +20,15 @@ CONSTANTS Members, Topics, NParts, SubsChoices, CommitTP,
           DevAssignAllMembers,\* round-robin over all members, subscriptions ignored
           DevRestoreDropsAsg, DevRestoreGenZero,      \* failover loses assignments / generation
           DevExpireIgnoresHb, \* Heartbeat never refreshes lastHeartbeat
+          HbCoalesce,         \* deviation when > 0: a Heartbeat less than HbCoalesce ticks after the recorded one is answered but not recorded (0 = repaired tree)
           DevNoLaggerDrop,    \* dropRebalanceLaggers never drops
           DevNoExpire,        \* removeExpiredMembers never removes
           DevLaggerSkippedOnExpiry, \* cleanup: `expired || laggers` short-circuit - no lagger drop in a tick in which a session expired
+          DevRestoreSkipsExpired,   \* restoreGroupState drops members whose persisted heartbeat is older than their session
+          DevJoinPutFailDropsMember, \* JoinGroup whose PutConsumerGroup fails deletes the new member but keeps leader / generation / phase
+          DevMalformedJoinGhost,    \* JoinGroup without parseable subscription metadata is refused (INVALID_REQUEST) *after* the member was inserted
+          DevJoinNewSkipsLoad,      \* JoinGroup of a first-time joiner does not load the persisted group
+          DevJoinIgnoresLoadError,  \* JoinGroup treats a failed FetchConsumerGroup as "no such group"
           DevSyncRefusesIdle, \* after a failover SyncGroup refuses a member whose (persisted) assignment is empty
           \* store I/O outside the coordinator lock (the repaired tree does all of it under c.mu):
           DevHbWriteUnlocked,      \* Heartbeat snapshots under the lock, PutConsumerGroup after unlocking
@@ -69,10 +75,11 @@ Persist(g) == IF g.none \/ Mem(g) = {} THEN NoGrp
 RestoreK(s, t, keep) ==
   LET gen == IF DevRestoreGenZero THEN 0 ELSE s.gen
       rt == IF keep THEN s.rebT ELSE DefT
+      live == IF DevRestoreSkipsExpired THEN {m \in DOMAIN s.mem : ~(t - s.mem[m].hb > (IF keep THEN s.mem[m].sess ELSE DefT))} ELSE DOMAIN s.mem
       g0 == [none |-> FALSE, gen |-> gen, leader |-> s.leader, phase |-> s.phase,
-             mem |-> [m \in DOMAIN s.mem |-> [topics |-> s.mem[m].topics, sess |-> IF keep THEN s.mem[m].sess ELSE DefT,
+             mem |-> [m \in live |-> [topics |-> s.mem[m].topics, sess |-> IF keep THEN s.mem[m].sess ELSE DefT,
                                               hb |-> s.mem[m].hb, jg |-> gen]],
-             asg |-> [m \in DOMAIN s.mem |-> IF DevRestoreDropsAsg THEN {} ELSE s.mem[m].asg],
+             asg |-> [m \in live |-> IF DevRestoreDropsAsg THEN {} ELSE s.mem[m].asg],
              rebT |-> rt, deadline |-> IF s.phase \in {PP, PC} THEN t + rt ELSE 0]
   IN EnsureLeaderSet(g0)
 RestoreSet(s, t) == UNION {RestoreK(s, t, k) : k \in KeepT}
@@ -94,9 +101,27 @@ Book == /\ obs' = TLCEval(LET r == RestoreDet(store', now') IN
         /\ alive' = P!NextAlive /\ gstart' = P!NextGstart /\ fgen' = P!NextFgen
 
 \* ---------------------------------------------------------------- JoinGroup
-Join(c, topics, sess) ==
-  /\ \E g0 \in Loaded :
+\* fault = the store read of loadGroupIfMissing fails (only possible when the group is not in memory)
+\* putfail = the PutConsumerGroup at the end of JoinGroup fails: the reply is UNKNOWN_SERVER_ERROR ("JoinFail"), memory is ahead of the
+\*           store until the next successful write (used only by NextPutFault, i.e. by the deviation configuration)
+JoinX(c, topics, sess, fault, putfail) ==
+  /\ fault => grp.none
+  /\ IF fault /\ ~DevJoinIgnoresLoadError
+     THEN \* ensureGroup returns the error: JoinGroup fails, nothing changes
+          /\ UNCHANGED <<grp, store>> /\ last' = Base("JoinErr", c, 0, -100, RestoreDet(store, now)) @@ [sub |-> topics, sess |-> sess]
+     ELSE IF DevMalformedJoinGhost /\ topics = {} /\ ~fault
+     THEN \* the member record exists already when the request is refused: a ghost with joinGeneration 0, nothing persisted, no rebalance
+          \E g0 \in Loaded :
+            LET g == IF g0.none THEN EmptyGrp ELSE g0
+                g1 == IF c \in Mem(g) THEN g
+                      ELSE [g EXCEPT !.mem = [m \in Mem(g) \cup {c} |-> IF m = c THEN [topics |-> {}, sess |-> sess, hb |-> -1000, jg |-> 0] ELSE g.mem[m]],
+                                     !.asg = [m \in Mem(g) \cup {c} |-> IF m \in Mem(g) THEN g.asg[m] ELSE {}]]
+            IN /\ grp' = g1 /\ UNCHANGED store
+               /\ last' = Base("Join", c, 0, 42, g0) @@ [sub |-> topics, sess |-> sess, rgen |-> 0, leader |-> "", list |-> {}]
+     ELSE
+     \E g0 \in (IF fault \/ (DevJoinNewSkipsLoad /\ grp.none /\ c \notin Mem(RestoreDet(store, now))) THEN {NoGrp} ELSE Loaded) :
      LET g == IF g0.none THEN EmptyGrp ELSE g0
+         pre0 == IF g0.none /\ grp.none THEN RestoreDet(store, now) ELSE g0     \* the group the request should have acted on
          exists == c \in Mem(g)
          subChanged == exists /\ g.mem[c].topics # topics
          ms == IF exists THEN [g.mem[c] EXCEPT !.topics = topics, !.hb = now, !.sess = sess]
@@ -115,10 +140,15 @@ Join(c, topics, sess) ==
                    complete == ~ready0 /\ (DevJoinOkEarly \/ AllJoined(g4))      \* completeIfReady
                    g5 == IF complete THEN [g4 EXCEPT !.phase = PC, !.deadline = 0] ELSE g4
                    ready == ready0 \/ complete
-               IN /\ grp' = g5 /\ store' = Persist(g5)
-                  /\ last' = Base("Join", c, 0, IF ready THEN 0 ELSE 27, g0) @@
+                   drop == putfail /\ DevJoinPutFailDropsMember /\ ~exists
+                   g6 == IF drop THEN [g5 EXCEPT !.mem = Restrict(g5.mem, Mem(g5) \ {c}), !.asg = Restrict(g5.asg, Mem(g5) \ {c})] ELSE g5
+               IN /\ grp' = g6 /\ store' = (IF putfail THEN store ELSE Persist(g5))
+                  /\ last' = [Base(IF putfail THEN "JoinFail" ELSE "Join", c, 0, IF putfail THEN -1 ELSE IF ready THEN 0 ELSE 27, pre0)
+                                 EXCEPT !.restored = (grp.none /\ ~pre0.none), !.pending = putfail] @@
                              [sub |-> topics, sess |-> sess, rgen |-> g5.gen, leader |-> g5.leader, list |-> IF ready /\ c = g5.leader THEN Mem(g5) ELSE {}]
-  /\ hist' = Append(hist, [a |-> "Join", c |-> c, sub |-> topics, sess |-> sess])
+  /\ hist' = Append(hist, IF putfail THEN [a |-> "Join", c |-> c, sub |-> topics, sess |-> sess, putfail |-> TRUE]
+                                    ELSE IF fault THEN [a |-> "Join", c |-> c, sub |-> topics, sess |-> sess, fault |-> TRUE]
+                                    ELSE [a |-> "Join", c |-> c, sub |-> topics, sess |-> sess])
   /\ UNCHANGED <<now, offs, pend>> /\ Book
 
 \* ---------------------------------------------------------------- assignPartitions: round-robin in sortedMembers order
@@ -168,7 +198,7 @@ Heartbeat(c, d) ==
      IN IF g.none THEN Plain(R(25), grp, store)
         ELSE IF c \notin Mem(g) THEN Plain(R(25), g, store)
         ELSE IF ~DevHbNoGen /\ gen # g.gen THEN Plain(R(22), g, store)
-        ELSE LET g1 == IF DevExpireIgnoresHb THEN g ELSE [g EXCEPT !.mem[c].hb = now] IN
+        ELSE LET g1 == IF DevExpireIgnoresHb \/ now - g.mem[c].hb < HbCoalesce THEN g ELSE [g EXCEPT !.mem[c].hb = now] IN
              IF g.phase # PS
              THEN IF FixHbRefresh THEN Write(R(27), g1) ELSE Plain(R(27), g, store)
              ELSE Write(R(0), g1)
@@ -259,10 +289,12 @@ Failover ==
   /\ hist' = Append(hist, [a |-> "Failover"])
   /\ UNCHANGED <<now, store, offs, pend>> /\ Book
 
-Next == \/ \E c \in Members : \/ \E s \in SubsChoices, ss \in SessChoices : Join(c, s, ss)
+Join(c, topics, sess, fault) == JoinX(c, topics, sess, fault, FALSE)
+Next == \/ \E c \in Members : \/ \E s \in SubsChoices, ss \in SessChoices, f \in BOOLEAN : Join(c, s, ss, f)
                               \/ \E d \in {0, -1} : Sync(c, d) \/ Heartbeat(c, d) \/ Commit(c, d)
                               \/ Leave(c)
         \/ Tick \/ Failover \/ DeleteGroups \/ Release
+NextPutFault == Next \/ \E c \in Members, s \in SubsChoices, ss \in SessChoices : JoinX(c, s, ss, FALSE, TRUE)
 Spec == Init /\ [][Next]_vars
 
 \* ---------------------------------------------------------------- properties (GroupProps, as action properties over a step)
@@ -280,6 +312,7 @@ C14_ListOnlyLeader == [][P!C14_ListOnlyLeader]_vars
 C14_SyncAfterLeader == [][P!C14_SyncAfterLeader]_vars
 C15_RestoreEqual == [][P!C15_RestoreEqual]_vars
 C15_NotFenced == [][P!C15_NotFenced]_vars
+C15_ActsOnRestored == [][P!C15_ActsOnRestored]_vars
 C15_KeepWorking == [][P!C15_KeepWorking]_vars
 C43_RemovedJustified == [][P!C43_RemovedJustified]_vars
 C43_NoOverdue == [][P!C43_NoOverdue]_vars
@@ -288,13 +321,13 @@ C43_Rebalances == [][P!C43_Rebalances]_vars
 \* all of them as one action property (one evaluation per transition: used by the exhaustive configs)
 AllC == [][/\ P!C12_OnlySubscribed /\ P!C12_ExactlyOne /\ P!C12_ReplyFromMap /\ P!C12_OneMapPerGen /\ P!C13_StaleRejected /\ P!C13_StaleNoCommit
            /\ P!C13_GenMonotone /\ P!C13_ReplyGen /\ P!C14_JoinOK /\ P!C14_Leader /\ P!C14_ListOnlyLeader /\ P!C14_SyncAfterLeader
-           /\ P!C15_RestoreEqual /\ P!C15_NotFenced /\ P!C15_KeepWorking /\ P!C43_RemovedJustified /\ P!C43_NoOverdue /\ P!C43_Rebalances]_vars
+           /\ P!C15_RestoreEqual /\ P!C15_NotFenced /\ P!C15_ActsOnRestored /\ P!C15_KeepWorking /\ P!C43_RemovedJustified /\ P!C43_NoOverdue /\ P!C43_Rebalances]_vars
 
 \* internal facts of the model (conformance level, not part of any property)
 StoreInSync == ~grp.none => (~store.none /\ store.gen = grp.gen /\ store.phase = grp.phase /\ DOMAIN store.mem = Mem(grp))
 LeaderIsMember == ~grp.none => grp.leader \in Mem(grp)
 AsgOnlyStable == (~grp.none /\ grp.phase # PS) => \A m \in Mem(grp) : grp.asg[m] = {}
-HbIsAlive == (FixHbRefresh /\ ~DevExpireIgnoresHb /\ ~grp.none) => \A m \in Mem(grp) : grp.mem[m].hb = alive[m]
+HbIsAlive == (FixHbRefresh /\ ~DevExpireIgnoresHb /\ HbCoalesce = 0 /\ ~grp.none) => \A m \in Mem(grp) : grp.mem[m].hb = alive[m]
 
 GenBound == grp.none \/ grp.gen <= MaxGen
 View == <<grp, store, now, alive, gstart, fgen, pend>>
